@@ -123,7 +123,10 @@ Proof. induction l; constructor; auto. Qed.
 
 Lemma S_ffill_go_keeps limit l : forall last run, keeps l (S_ffill_go limit last run l).
 Proof.
-  induction l as [|[x|] t IH]; intros last run; cbn; constructor; auto; intros; discriminate.
+  induction l as [|[x|] t IH]; intros last run; cbn.
+  - constructor.
+  - constructor; [auto | apply IH].
+  - constructor; [intros; discriminate | apply IH].
 Qed.
 
 Lemma S_ffill_keeps limit l : keeps l (S_ffill limit l).
@@ -145,7 +148,12 @@ Proof.
 Qed.
 
 Lemma S_fillna_keeps v l : keeps l (S_fillna v l).
-Proof. induction l as [|[x|] t IH]; cbn; constructor; auto; intros; discriminate. Qed.
+Proof.
+  induction l as [|[x|] t IH]; cbn.
+  - constructor.
+  - constructor; [auto | apply IH].
+  - constructor; [intros; discriminate | apply IH].
+Qed.
 
 Theorem fills_keep_present limit v l :
   keeps l (S_ffill limit l) /\ keeps l (S_bfill limit l) /\
@@ -187,7 +195,7 @@ Theorem S_count_spec l :
   S_count l = Z.of_nat (length (S_dropna (seq 0 (length l)) l)).
 Proof.
   unfold S_count, S_dropna. split.
-  - induction l as [|[x|] t IH]; cbn in *; lia.
+  - induction l as [|[x|] t IH]; cbn [filter length is_missing negb] in *; lia.
   - f_equal. generalize 0%nat. induction l as [|[x|] t IH]; intros s; cbn; [reflexivity| |]; rewrite ?IH; auto.
 Qed.
 
@@ -212,7 +220,7 @@ Proof.
     + apply negb_true_iff. apply not_true_iff_false. intros E. apply existsb_exists in E as (c & Hc & Ec).
       rewrite (H2 c Hc) in Ec. discriminate.
   - split; intros [H1 H2]; split; try assumption.
-    + apply negb_true_iff in H2. induction line as [|c t IH]; cbn in H2; [discriminate|].
+    + apply negb_true_iff in H2. clear H1. induction line as [|c t IH]; cbn in H2; [discriminate|].
       destruct (is_missing c) eqn:E; cbn in H2.
       * destruct (IH H2) as (c' & Hc' & E'). exists c'. split; [right|]; assumption.
       * exists c. split; [left; reflexivity|assumption].
